@@ -32,7 +32,7 @@ def main():
         if r.returncode:
             rows.append((name, "-", "PATCH DOES NOT APPLY", r.stdout[-200:]))
             continue
-        env = dict(os.environ, PYTHONPATH=f"{WT}/src")
+        env = dict(os.environ, PYTHONPATH=f"{WT}/src", VERIF_NO_EVIDENCE="1")
         demo = sh(f"/venv/bin/python {d}/demo.py", env=env, cwd="/tmp")
         for c in checks:
             t0 = time.time()
